@@ -223,6 +223,10 @@ pub fn run(ctx: &Ctx, rep: &mut Report) {
             rep.sample(json!({"entry": j.entry.name(), "attr": j.attr, "item": s.item, "origin": s.origin}));
         }
     }
+    if ctx.replay.is_none() {
+        let inputs: Vec<crate::conform::Input> = seeds.iter().filter(|s| !s.is_impl && !s.traits.is_empty() && !s.attr.contains("dump")).flat_map(|s| Entry::BOTH.iter().map(move |&e| crate::conform::Input { entry: e, attr: s.attr.clone(), item: s.item.clone() })).collect();
+        crate::conform::validate(rep, "c19p", &inputs);
+    }
     rep.set("seeds", json!(seeds.len()));
     rep.set("corpus_seeds", json!(seeds.iter().filter(|s| !s.origin.starts_with("gen:")).count()));
 }
